@@ -2184,8 +2184,10 @@ func (p *parser) scanOctal() rune {
 	}
 
 	// Octal codes only go up to 255.  Any larger and the behavior that Perl follows
-	// is simply to truncate the high bits.
-	i &= 0xFF
+	// is simply to truncate the high bits.  RE2 keeps the value: \777 is U+01FF.
+	if !p.useRE2() {
+		i &= 0xFF
+	}
 
 	return rune(i)
 }
